@@ -17,6 +17,23 @@ fn main() {
             println!("radix {} base {} notation {}: {} writes, {} mismatches {}", $r, $b, notation, n, bad, first);
         }
     }}; }
+    // max_significant_digits (C14)
+    macro_rules! gomax { ($r:expr, $F:expr) => {{
+        const F: u128 = $F;
+        for max in 1..=4usize { for truncate in [false, true] {
+            let (mut n, mut bad) = (0u64, 0u64); let mut first = String::new();
+            for it in 0..100000u64 {
+                x ^= x << 13; x ^= x >> 7; x ^= x << 17;
+                let v32 = match it { 0 => 0.0, 1 => 7.5, 2 => 255.0, 3 => 1.75, 4 => 1.0, _ => if it % 4 == 0 { ((x % 4096) as f32) / 16.0 } else { f32::from_bits(x as u32) } };
+                if !v32.is_finite() { continue; }
+                n += 1;
+                let r = std::panic::catch_unwind(|| cmp_wbin_maxdigits_f32::<F>(v32, $r, $r, $r, max, truncate)).unwrap_or(Err("PANIC in the writer"));
+                if let Err(e) = r { bad += 1; if first.is_empty() { first = format!("f32 {:e} bits {:#x}: {}", v32, v32.to_bits(), e); } }
+            }
+            println!("maxdigits radix {} max {} truncate {}: {} writes, {} mismatches {}", $r, max, truncate, n, bad, first);
+        } }
+    }}; }
+    gomax!(2, lexverif::radix_format(2)); gomax!(4, lexverif::radix_format(4)); gomax!(16, lexverif::radix_format(16));
     go!(2, 2, 2, lexverif::radix_format(2)); go!(4, 4, 4, lexverif::radix_format(4)); go!(8, 8, 8, lexverif::radix_format(8));
     go!(16, 16, 16, lexverif::radix_format(16)); go!(32, 32, 32, lexverif::radix_format(32));
     go!(4, 2, 10, mixed_format(4, 2)); go!(8, 2, 10, mixed_format(8, 2)); go!(16, 2, 10, mixed_format(16, 2)); go!(32, 2, 10, mixed_format(32, 2)); go!(16, 4, 10, mixed_format(16, 4));
